@@ -45,7 +45,7 @@ __CPROVER_ensures (lock != &vp_gen_lock || (vp_gen.held == 1 && vp_gen.locks == 
 __CPROVER_ensures (__CPROVER_return_value == 0 || __CPROVER_return_value == ETIMEDOUT || __CPROVER_return_value == ECANCELED)
 __CPROVER_ensures (__CPROVER_return_value == 0 || (__CPROVER_return_value == vp_g.last_sem_outcome && vp_cvg.self_dequeued))
 __CPROVER_ensures (!vp_cvg.unlinked_by_other || __CPROVER_return_value == 0)
-__CPROVER_assigns (VP_G_ALL, VP_FW_DATA, VP_CVG_FIELDS, vp_my_w, vp_reg.my_waiting, vp_gen, pcv->word, pcv->waiters,
+__CPROVER_assigns (VP_G_ALL, VP_FW_DATA, VP_CVG_FIELDS, VP_WK_FIELDS, vp_my_w, vp_reg.my_waiting, vp_gen, pcv->word, pcv->waiters,
 		   *vp_reg.mu_word, ((nsync_mu *) vp_reg.mu_word)->waiters);
 
 static lock_type Wt, Rt;
